@@ -88,7 +88,10 @@ class BehavioralRTLIRGeneratorL2( BehavioralRTLIRGeneratorL1 ):
 
   def visit_Name( s, node ):
     # temporary variable
-    if (not node.id in s.closure) and (not node.id in s.globals):
+    # A name bound inside the update block (loop variable, temporary variable)
+    # is local to it and shadows a closure or module-level name.
+    if (node.id in s.loop_var_env) or (node.id in s.tmp_var_env) or \
+       ((not node.id in s.closure) and (not node.id in s.globals)):
       # check if is a LoopVar or not
       if node.id in s.loop_var_env:
         ret = bir.LoopVar( node.id )
